@@ -30,7 +30,7 @@ package swagtool
 //@ func IsGenericObject props C07,C14 pure
 //@ ensures result == (typeName == "interface{}" || typeName == "any" || typeName == "")
 
-//@ func GetTagValue props C07,C14
+//@ func GetTagValue props C07,C14 pure
 //@ ensures absent: implies(strings.Index(tagStr, tagName+":\"") < 0, result == defaultValue)
 //@ ensures present: implies(strings.Index(tagStr, tagName+":\"") >= 0, exists(e, 0, len(tagStr)+1, e >= strings.Index(tagStr, tagName+":\"")+len(tagName)+2 && (e == len(tagStr) || tagStr[e] == '"') && forall(j, strings.Index(tagStr, tagName+":\"")+len(tagName)+2, e, tagStr[j] != '"') && result == ite(e > strings.Index(tagStr, tagName+":\"")+len(tagName)+2, tagStr[strings.Index(tagStr, tagName+":\"")+len(tagName)+2:e], defaultValue)))
 //@ loop 0 invariant start <= end && end <= len(tagStr) && forall(j, start, end, tagStr[j] != '"')
@@ -69,7 +69,7 @@ package swagtool
 //@ func HttpStatusCodeToString props C06,C14 pure
 //@ ensures true
 
-//@ func GetJsonNameFromTag props C07,C14
+//@ func GetJsonNameFromTag props C07,C14 pure
 //@ ensures true
 
 // ---- statements shared by the 3.0 and the 3.1 emitters (C06, C11): which method parameters become `parameters`
